@@ -156,6 +156,29 @@ func kinds() []*kind {
 	}, Conf: func(k *kind, limit, passes int) map[string]any {
 		return map[string]any{"type": "grpc/json", "file": k.File, "limit": limit, "passes": passes, "chosencases": []any{"e0", "e1", "e2"}}
 	}})
+	// a line beyond bufio.Scanner's default token size, with maxammosize raised accordingly
+	ks = append(ks, &kind{Name: "grpc/json+bigline", Type: "grpc/json", File: "/ammo", Extract: nameField, Render: func(e int) []byte {
+		var sb strings.Builder
+		for i := 0; i < e; i++ {
+			pad := ""
+			if i == 0 {
+				pad = strings.Repeat("p", 70000)
+			}
+			fmt.Fprintf(&sb, `{"tag":"e%d","call":"pkg.Svc.M","payload":{"i":%d,"pad":"%s"}}`+"\n", i, i, pad)
+		}
+		return []byte(sb.String())
+	}, Conf: func(k *kind, limit, passes int) map[string]any {
+		return map[string]any{"type": "grpc/json", "file": k.File, "limit": limit, "passes": passes, "maxammosize": 200000}
+	}})
+	// http formats with a chosencases list that names every tag of the file: limit counts delivered entries
+	for _, base := range []*kind{ks[0], ks[1], ks[6]} {
+		b := base
+		ks = append(ks, &kind{Name: b.Name + "+chosencases", Type: b.Type, File: b.File, Preload: b.Preload, Render: b.Render, Extract: b.Extract, Conf: func(k *kind, limit, passes int) map[string]any {
+			m := httpConf(k, limit, passes)
+			m["chosencases"] = []any{"t0", "t1", "t2", "t3"}
+			return m
+		}})
+	}
 	ks = append(ks, &kind{Name: "http/scenario", Type: "http/scenario", File: "/ammo.yaml", Extract: nameField, Conf: plain, Render: func(e int) []byte {
 		var sb strings.Builder
 		sb.WriteString("requests:\n  - name: r\n    method: GET\n    uri: /\nscenarios:\n")
@@ -536,9 +559,14 @@ type C14Cell struct {
 	Limit  int      `json:"limit"`
 	Passes int      `json:"passes"`
 	Chosen []string `json:"chosen"`
+	// ChosenEmpty: the key is given with an empty list (chosencases: []) - no filter, like an absent key
+	ChosenEmpty bool `json:"chosen_empty,omitempty"`
 }
 
 func (c C14Cell) Name() string {
+	if c.ChosenEmpty {
+		return fmt.Sprintf("%s|limit=%d|passes=%d|chosen=[](explicit)", c.File.Name(), c.Limit, c.Passes)
+	}
 	return fmt.Sprintf("%s|limit=%d|passes=%d|chosen=%v", c.File.Name(), c.Limit, c.Passes, c.Chosen)
 }
 
@@ -556,6 +584,9 @@ func (r *c14run) scenario(x *vs.X) func(end, msg string) error {
 	data := render(c.File.Format, c.File.Items, c.File.Layout)
 	_ = afero.WriteFile(memfs, "/ammo", data, 0o644)
 	conf := map[string]any{"type": formatType[c.File.Format], "file": "/ammo", "limit": c.Limit, "passes": c.Passes, "preload": r.preload}
+	if c.ChosenEmpty {
+		conf["chosencases"] = []any{}
+	}
 	if len(c.Chosen) > 0 {
 		l := make([]any, len(c.Chosen))
 		for i, s := range c.Chosen {
@@ -756,8 +787,15 @@ func runC14(t *testing.T, spec *hutil.Spec, out *hutil.Out) {
 		for fi, f := range mine {
 			for _, limit := range []int{0, 1, 2, 3} {
 				for _, passes := range []int{0, 1, 2} {
-					for _, ch := range chosens {
-						c := C14Cell{File: f, Limit: limit, Passes: passes, Chosen: ch}
+					for chi := 0; chi <= len(chosens); chi++ {
+						var ch []string
+						if chi < len(chosens) {
+							ch = chosens[chi]
+						}
+						c := C14Cell{File: f, Limit: limit, Passes: passes, Chosen: ch, ChosenEmpty: chi == len(chosens)}
+						if c.ChosenEmpty && fi%3 != 0 {
+							continue // the explicit empty list on every third file
+						}
 						if spec.Only != "" && !strings.Contains(c.Name(), spec.Only) {
 							continue
 						}
